@@ -603,3 +603,7 @@ RULE["C13"] += " A third of the serving cycles are preceded by a refused serving
 RULE["C16"] += " A third of the schedules (and four fixed ones: held client, introspecting clients, Shutdown, sustained registration attempts) start every round with refused serving attempts before the real one."
 RULE["C08"] += (" Some call steps are answered by a foreign peer with an error of ANOTHER interface whose member name the description declares (with fitting or empty parameters): the "
                 "generic *varlink.Error of exactly that name must come back; others with a well-formed success frame (for methods without output: {}, null or no parameters member): success with equal values.")
+RULE["C01"] += " The unencodable reply parameters are drawn from nine kinds: NaN, json.RawMessage by value / by pointer whose bytes are not one JSON value (raw NUL, truncated, trailing material forging members), a channel, Marshalers that fail or return such bytes."
+RULE["C02"] += " One call in six of the service arm has a reply or error attempt with such an unencodable value before its real replies: refused, and the wire still carries whole valid frames only."
+RULE["C07"] += " One description in four (and four fixed ones) ends in blanks that are not newlines (after the last member, on a line of their own, at the end of a closing comment): the run-time text may differ by trailing newlines only."
+RULE["C18"] += " One client case in twelve (24 fixed): the upgrade reply is awaited under a 60 ms deadline, raw reads use a context without deadline, the peer's later bytes are sent after that deadline."
